@@ -38,6 +38,8 @@ func runC03(c *Ctx, r *Report) {
 	}, "a predecessor is never pushed on the stack: its whole branch is missing from Values()")
 	r.Doc("R-C03.13", "causal order rests on clocks: every appended entry's time exceeds every head's time (adopted from C04), and the heads the walk starts from depend on all four inputs of the merge (adopted from C01)")
 	importRules(c, r, "C04", []string{"R-C04.2"}, "R-C03.13")
+	r.Doc("R-C03.14", "every entry the log holds can be a head: the head-set constructor leaves nothing out for its content (adopted from C02)")
+	importRules(c, r, "C02", []string{"R-C02.11"}, "R-C03.14")
 	mergedHeadsDeps(c, r, "R-C03.13", p.FuncI("", "IPFSLog", "Join"))
 	pureMerge(c, r, "R-C03.8")
 	{
